@@ -105,6 +105,13 @@ def run(tier: str, seed: int) -> int:
     run_.rule = ("TLC: LerayOK (divergence-free, idempotent, identity on solenoidal fields and on the mean) and Rot3dOK on every basis sum; conformance: "
                  "projector cases (D, N, draw), dense rot3d outputs, monitored 5-step rollouts per (class, N, order, parameters) validated by TLC")
     run_.assumptions = ["spectral divergence measured with the library's derivative operator (bound by C05/C04)", "Nyquist-free fields for the projectors, as the property states"]
+    # the composed machine (spec/Session.tla): multi-step API sessions generated by TLC -simulate, replayed call by call; this check
+    # reports the mismatches of the operations it owns (leray)
+    if tier != "quick":
+        from .. import session
+        import jax.numpy as _jnp
+        import exponax as _ex
+        session.run_for(run_, tier, seed, _ex, _jnp, ['leray'], PID)
     return run_.finish()
 
 
